@@ -224,6 +224,18 @@ class Verifier:
         self.pending = []
         info['paths'] = npaths
         info['reached'] = reached
+        if not prefix:
+            # contract drift: a ghost hook keyed by a statement that no longer occurs on any path would silently drop the
+            # obligations it carries
+            import fnmatch
+            for hk in (c.ghost or {}):
+                if isinstance(hk, tuple):
+                    when, pat = hk
+                    hit = any(k == c.key and w == when and (fp == pat or ('*' in pat and fnmatch.fnmatchcase(fp, pat)))
+                              for (k, w, fp) in self.ghost_hits)
+                    if not hit:
+                        raise EngineError(f'{key}: ghost hook {hk!r} attached to no statement on any path (the statement it names '
+                                          f'no longer occurs: contract drift)')
         return results, info
 
     def run_harness(self, ip, key, c):
